@@ -241,7 +241,7 @@ class Queue(Greenlet):
         self.active_ids = set()
         self.queued_ids = set()
         self.queued_lock = Semaphore(1)
-        self._enqueuing = 0
+        self._enqueuing = set()
         self._announced = []
         self.queue_policies = []
         self._use_pool('store_pool', store_pool)
@@ -324,10 +324,11 @@ class Queue(Greenlet):
 
     def _add_announced(self, entry):
         # A message that enqueue() has written but not yet marked active may
-        # already be listed or announced by the storage: such entries are
-        # looked at once enqueue() is done with its bookkeeping.
+        # already be listed or announced by the storage: such an entry is
+        # looked at once the enqueue() calls that were in progress when it
+        # arrived are done with their bookkeeping.
         if self._enqueuing:
-            self._announced.append(entry)
+            self._announced.append((set(self._enqueuing), entry))
         else:
             self._add_queued(entry)
 
@@ -344,7 +345,8 @@ class Queue(Greenlet):
         """
         now = time.time()
         envelopes = self._run_policies(envelope)
-        self._enqueuing += 1
+        token = object()
+        self._enqueuing.add(token)
         try:
             ids = self._pool_imap('store', self.store.write, envelopes,
                                   repeat(now))
@@ -357,10 +359,13 @@ class Queue(Greenlet):
                 elif not isinstance(id, QueueError):
                     raise id  # Re-raise exceptions that are not QueueError.
         finally:
-            self._enqueuing -= 1
-            if not self._enqueuing:
-                announced, self._announced = self._announced, []
-                for entry in announced:
+            self._enqueuing.discard(token)
+            announced, self._announced = self._announced, []
+            for waiting_for, entry in announced:
+                waiting_for.discard(token)
+                if waiting_for:
+                    self._announced.append((waiting_for, entry))
+                else:
                     self._add_queued(entry)
         return results
 
